@@ -529,6 +529,11 @@ void sim_sched_point(int kind, const char *file, int line)
     }
     G.last_site = site;
     G.fp = (G.fp ^ ((uint64_t)G.cur << 24) ^ ((uint64_t)kind << 16) ^ (uint64_t)site) * 0x100000001b3ULL;
+    if (G.steplog) {
+        int ln;
+        const char *fn = sim_site_name(site, &ln);
+        fprintf(G.steplog, "%lu t%d %c %s:%d addr=%p now=%lu\n", (unsigned long)G.steps, G.cur, kind, fn, ln, G.T[G.cur].last_addr, (unsigned long)G.now);
+    }
     tail[tail_pos % TAIL_N].step = G.steps;
     tail[tail_pos % TAIL_N].tid = G.cur;
     tail[tail_pos % TAIL_N].kind = kind;
